@@ -21,10 +21,10 @@ theorem Statements.from_to (h : c.Lawful) (ss : List (Stmt E)) (hg : ∀ s ∈ s
   simp [Statements.fromDict, Statements.toDict, getArr, Json.get?, List.lookup, Json.asArr?, this]
 
 omit [DecidableEq E] in
-theorem Step.from_to (s : Step E) (hg : s.Good) : Step.fromDict (s.toDict c) = some s := by
+theorem Step.from_to (s : Step E) : Step.fromDict s.toDict = some s := by
   cases s with
   | est e =>
-    have := EstStep.from_to (c := c) e hg
+    have := EstStep.from_to e
     simp [Step.fromDict, Step.toDict, this]
     simp [EstStep.toDict, Json.get?, List.lookup]
   | sim e =>
@@ -33,9 +33,9 @@ theorem Step.from_to (s : Step E) (hg : s.Good) : Step.fromDict (s.toDict c) = s
     simp [SimStep.toDict, Json.get?, List.lookup]
 
 omit [DecidableEq E] in
-theorem Steps.from_to (ss : List (Step E)) (hg : ∀ s ∈ ss, s.Good) :
-    Steps.fromDict (E := E) (Steps.toDict c ss) = some ss := by
-  have := allSome_map (Step.toDict c) (Step.fromDict (E := E)) ss (fun s hs => Step.from_to s (hg s hs))
+theorem Steps.from_to (ss : List (Step E)) :
+    Steps.fromDict (E := E) (Steps.toDict ss) = some ss := by
+  have := allSome_map' (Step.toDict (E := E)) (Step.fromDict (E := E)) ss Step.from_to
   simp [Steps.fromDict, Steps.toDict, getArr, Json.get?, List.lookup, Json.asArr?, this]
 
 theorem Model.from_to (h : c.Lawful) (m : Model E M) (hg : m.Good) :
@@ -43,8 +43,8 @@ theorem Model.from_to (h : c.Lawful) (m : Model E M) (hg : m.Good) :
   obtain ⟨name, desc, ps, rvs, sts, steps, di, vt, dvs, ot, ie⟩ := m
   have h1 := Parameters.from_to ps
   have h2 := RandomVariables.from_to h rvs
-  have h3 := Statements.from_to h sts hg.1
-  have h4 := Steps.from_to (c := c) steps hg.2
+  have h3 := Statements.from_to h sts hg
+  have h4 := Steps.from_to steps
   have h5 := DataInfo.from_to di
   have h6 := allSome_map' (fun (p : E × E) => (c.ser p.1, Json.str (c.ser p.2)))
       (obsPairOf c) ot (by intro p; simp [obsPairOf, Json.asStr?, h.rt])
